@@ -279,3 +279,66 @@ fn transition_exemptions_bounded() {
     }
     println!("NB-RESULT name=transition_exemptions_bounded cases={cases}");
 }
+
+// ------------------------------------------------------------------------------------------------
+// Transition-constraint composition (C17, air/src/air/transition/mod.rs): TransitionConstraints::new hands the first
+// `num_main` composition coefficients to the main constraints and the FOLLOWING `num_aux` ones to the auxiliary
+// constraints, and combine_evaluations is the random linear combination sum_i c_i * main_i + sum_j c_{num_main + j} * aux_j
+// divided by the transition divisor at x (reference computed here term by term).
+// Bound: 1..4 main x 0..4 auxiliary constraints, trace lengths 8 and 32, 1..3 exemptions, seeded coefficients /
+// evaluations / points over the 128-bit field.
+#[test]
+fn transition_composition_bounded() {
+    std::panic::set_hook(Box::new(|_| {}));
+    let mut cases = 0u64;
+    let mut s = 0x2545F4914F6CDD1Du64 ^ seed().wrapping_mul(0x9E3779B97F4A7C15) | 1;
+    let mut next = move || {
+        s ^= s << 13;
+        s ^= s >> 7;
+        s ^= s << 17;
+        BaseElement::new(s as u128 * 0x1_0000_0001 + 3)
+    };
+    let options = ProofOptions::new(32, 8, 0, FieldExtension::None, 4, 31);
+    for n in [8usize, 32] {
+        for num_main in 1..=4usize {
+            for num_aux in 0..=4usize {
+                for k in 1..=3usize {
+                    cases += 1;
+                    let md = vec![TransitionConstraintDegree::new(1); num_main];
+                    let ad = vec![TransitionConstraintDegree::new(1); num_aux];
+                    let ctx = if num_aux == 0 {
+                        AirContext::<BaseElement>::new(TraceInfo::new(2, n), md, 1, options.clone())
+                    } else {
+                        AirContext::<BaseElement>::new_multi_segment(TraceInfo::new_multi_segment(2, 2, 2, n, vec![]), md, ad, 1, 1, None, options.clone())
+                    }
+                    .set_num_transition_exemptions(k);
+                    let coeffs: Vec<BaseElement> = (0..num_main + num_aux).map(|_| next()).collect();
+                    let tc = winter_air::TransitionConstraints::<BaseElement>::new(&ctx, &coeffs);
+                    if tc.main_constraint_coef() != coeffs[..num_main].to_vec() || tc.aux_constraint_coef() != coeffs[num_main..].to_vec() {
+                        fail(format!("TransitionConstraints::new({num_main} main, {num_aux} aux): main coefficients {:?}, auxiliary coefficients {:?} for the drawn list {coeffs:?}", tc.main_constraint_coef(), tc.aux_constraint_coef()));
+                    }
+                    if tc.num_main_constraints() != num_main || tc.num_aux_constraints() != num_aux {
+                        fail(format!("TransitionConstraints::new: {} main / {} aux constraints instead of {num_main} / {num_aux}", tc.num_main_constraints(), tc.num_aux_constraints()));
+                    }
+                    let me: Vec<BaseElement> = (0..num_main).map(|_| next()).collect();
+                    let ae: Vec<BaseElement> = (0..num_aux).map(|_| next()).collect();
+                    let x = next();
+                    let mut want = BaseElement::ZERO;
+                    for i in 0..num_main {
+                        want += coeffs[i] * me[i];
+                    }
+                    for j in 0..num_aux {
+                        want += coeffs[num_main + j] * ae[j];
+                    }
+                    let d = winter_air::ConstraintDivisor::<BaseElement>::from_transition(n, k);
+                    want /= d.evaluate_at(x);
+                    let got = tc.combine_evaluations::<BaseElement>(&me, &ae, x);
+                    if got != want {
+                        fail(format!("combine_evaluations({num_main} main, {num_aux} aux, trace length {n}, {k} exemptions) is not the random linear combination over the transition divisor"));
+                    }
+                }
+            }
+        }
+    }
+    println!("NB-RESULT name=transition_composition_bounded cases={cases}");
+}
